@@ -433,6 +433,31 @@ Proof.
   rewrite <- S in Hh. destruct (run_sim xs w Cs R Hh) as [Cs' [R' _]]. now exists Cs'.
 Qed.
 
+(** the contents of every paragraph after any history are those of the reference run *)
+Theorem run_refines s xs :
+  start_ok s = true -> hist_ok (s_start lower s) xs = true ->
+  let w := run lower (snd (start_world lower s)) xs in
+  map (obj_items lower w) (w_objs w)
+  = map (fun d => Ok d) (fold_left spec_next xs (s_start lower s)).
+Proof.
+  intros Hs Hh. destruct (start_sim s Hs) as [w0 [Cs [E [R S]]]]. rewrite E. cbn [snd].
+  rewrite <- S in *. destruct (run_sim xs w0 Cs R Hh) as [Cs' [R' S']].
+  cbv zeta. rewrite (W_rep_items _ _ R'). now rewrite S'.
+Qed.
+
+(** when every assigned value passes validate_input the reference run is [Spec.s_run] itself *)
+Definition sets_valid (x : op) : bool :=
+  match x with OSet _ _ v => is_ok (validate_input v) | _ => true end.
+
+Lemma spec_run_s_run xs : forall W,
+  forallb sets_valid xs = true -> fold_left spec_next xs W = s_run lower W xs.
+Proof.
+  induction xs as [|x xs IH]; intros W H; [reflexivity|].
+  cbn [forallb] in H. apply andb_true_iff in H. destruct H as [Hx Hxs].
+  cbn [fold_left s_run]. rewrite <- IH by exact Hxs. f_equal.
+  unfold Check.spec_next. destruct x; try reflexivity. cbn [sets_valid] in Hx. cbn [hint]. now rewrite Hx.
+Qed.
+
 (** every observation of a well-formed world succeeds: no dangling id, no cycle *)
 Theorem wf_observable w :
   wf_world w -> exists W, map (obj_items lower w) (w_objs w) = map (fun d => Ok d) W.
